@@ -2,6 +2,7 @@ package main
 
 import (
 	"fmt"
+	"strconv"
 	"strings"
 
 	"grol.io/grol/repl"
@@ -12,7 +13,10 @@ func init() { suites["trie"] = suite{gen: trieGen, run: trieRun} }
 
 // one case: insert ws in order into a fresh trie, then query q.
 func trieRun(input string) string {
-	parts := strings.SplitN(input, ";", 2)
+	if strings.HasPrefix(input, "R;") { // a session: the words are those the REPL records (trie_session.go)
+		return trieSessionRun(input)
+	}
+	parts := strings.SplitN(input, ";", 3)
 	var ws []string
 	if parts[0] != "" {
 		for _, h := range strings.Split(parts[0], ",") {
@@ -24,10 +28,19 @@ func trieRun(input string) string {
 	for _, w := range ws {
 		t.Insert(w)
 	}
+	return trieQuery(t, q, parts[2:])
+}
+
+// the observation of one query; cursor = optional field with the cursor position of the completion (default: end)
+func trieQuery(t *trie.Trie, q string, cursor []string) string {
+	at := len(q)
+	if len(cursor) > 0 {
+		at, _ = strconv.Atoi(cursor[0])
+	}
 	c := t.Contains(q)
 	n, all := t.PrefixAll(q)
 	ac := &repl.AutoComplete{Trie: t}
-	line, pos, ok := repl.VerifAutoComplete(ac, q, len(q))
+	line, pos, ok := repl.VerifAutoComplete(ac, q, at)
 	acs := "none"
 	if ok {
 		acs = fmt.Sprintf("%s:%d", hx(line), pos)
@@ -140,6 +153,7 @@ func trieGen(tier string, r *rng, emit func(string)) {
 		}
 		trieCase(ws, q)
 	}
+	trieSessionGen(tier, r, emit) // cursor inside the line; the words a REPL session records (trie_session.go)
 }
 
 func randWord(r *rng, alpha string, maxLen int) string {
